@@ -452,6 +452,38 @@ theorem cleanRun_false (ops : List Op) (src : List (Ev Val)) : Ref.CleanRun fals
   | nil => exact clean_false src
   | cons op ops ih => exact ⟨clean_false src, ih _⟩
 
+/-! ## `processed_with_inputs` for an arbitrary 1:1 `process_fn` -/
+
+/-- the events of an iterator that yields `os` while its source hands out one record per output
+(`used` = position + 1), starting behind `k` records -/
+def tagFrom {β : Type} : Nat → List β → List (Impl.AEv β)
+  | _, [] => []
+  | k, o :: os => ⟨.ok o, k + 1⟩ :: tagFrom (k + 1) os
+
+theorem pwi_tagged (skip : Bool) (pre : List (Ev Val)) (rs : List Val) (outs : List (List Val))
+    (h : outs.length = rs.length) :
+    Impl.pwi skip (pre ++ rs.map .ok) (Impl.countOk pre) (tagFrom pre.length outs)
+      = tagFrom pre.length (outs.zip rs) := by
+  induction rs generalizing pre outs with
+  | nil =>
+    cases outs with
+    | nil => simp [tagFrom, Impl.pwi]
+    | cons o os => simp at h
+  | cons r rs ih =>
+    cases outs with
+    | nil => simp at h
+    | cons o os =>
+      have hlen : os.length = rs.length := by simpa using h
+      have htake : (pre ++ Except.ok r :: rs.map Except.ok).take (pre.length + 1) = pre ++ [Except.ok r] :=
+        take_append_succ pre _ _
+      have hc : Impl.countOk (pre ++ [Except.ok r]) = Impl.countOk pre + 1 := by
+        simp [countOk_append, Impl.countOk]
+      have ih' := ih (pre ++ [Except.ok r]) os hlen
+      have hpre : pre ++ Except.ok r :: rs.map Except.ok = (pre ++ [Except.ok r]) ++ rs.map Except.ok := by simp
+      have hl' : (pre ++ [Except.ok r]).length = pre.length + 1 := by simp
+      rw [← hpre, hc, hl'] at ih'
+      simp [tagFrom, Impl.pwi, htake, hc, oks_getElem_mid, ih']
+
 /-! ## vocabulary and helpers for C12 -/
 
 /-- is this source outcome an element that the operator (in state `s`) skips? -/
